@@ -351,7 +351,7 @@ func runC18(w *World) {
 		g := mk(1)
 		var p []Cmd
 		for i := 0; i < nscripts; i++ {
-			p = append(p, genScript(r, g))
+			p = appendScript(p, r, genScript(r, g))
 			if r.Intn(3) == 0 {
 				p = append(p, g.cmd(r))
 			}
